@@ -421,14 +421,14 @@ Qed.
    the PASSED series *)
 Lemma det_transform_nth trend s i : (i < length (svals s))%nat ->
   nth i (svals (det_transform trend s)) 0%Q =
-  (nth i (svals s) 0 - trend (sstart s + Z.of_nat i))%Q.
+  (nth i (svals s) 0 - trend (sstart s + Z.of_nat i)%Z)%Q.
 Proof.
   intro Hi. unfold det_transform. rewrite arr_op_nth by (try apply predict_at_length; exact Hi).
   rewrite predict_at_nth by exact Hi. reflexivity.
 Qed.
 Lemma det_inverse_nth trend s i : (i < length (svals s))%nat ->
   nth i (svals (det_inverse trend s)) 0%Q =
-  (nth i (svals s) 0 + trend (sstart s + Z.of_nat i))%Q.
+  (nth i (svals s) 0 + trend (sstart s + Z.of_nat i)%Z)%Q.
 Proof.
   intro Hi. unfold det_inverse. rewrite arr_op_nth by (try apply predict_at_length; exact Hi).
   rewrite predict_at_nth by exact Hi. reflexivity.
@@ -570,10 +570,10 @@ Qed.
 
 Lemma cond_fit_shift test decompose sp m y k :
   cond_fit test decompose sp m (shift_series k y) = shift_state k (cond_fit test decompose sp m y).
-Proof. unfold cond_fit. cbn [shift_series svals snd]. destruct (test sp (snd y)); reflexivity. Qed.
+Proof. unfold cond_fit, svals. cbn [shift_series snd]. destruct (test sp (snd y)); reflexivity. Qed.
 
 Lemma det_shift_equivariant trend trend' s k :
-  (forall t, trend' (t + k) == trend t)%Q ->
+  (forall t : Z, trend' (t + k)%Z == trend t)%Q ->
   seq_eq (det_transform trend' (shift_series k s)) (shift_series k (det_transform trend s)) /\
   seq_eq (det_inverse trend' (shift_series k s)) (shift_series k (det_inverse trend s)).
 Proof.
@@ -640,4 +640,4 @@ Lemma ex_nonvacuous :
   des_transform (des_after des_update (des_fit ex_dec 3 Additive ex_y) [(12, [9; 9]%Q)])
                 (9, [10; 10; 10; 10]%Q)
   = (9, [10 - 0; 10 - 1; 10 - -1; 10 - 0]%Q).
-Proof. split; [split; [lia|reflexivity]|reflexivity]. Qed.
+Proof. split; [split; [cbn; lia|reflexivity]|reflexivity]. Qed.
